@@ -226,7 +226,7 @@ def run_env(variant="asan"):
     env = dict(os.environ)
     env["ASAN_OPTIONS"] = "detect_leaks=0:abort_on_error=0:exitcode=97:detect_stack_use_after_return=0:allocator_may_return_null=1"
     env["UBSAN_OPTIONS"] = "print_stacktrace=1:halt_on_error=1:exitcode=97"
-    env["TSAN_OPTIONS"] = "exitcode=98:halt_on_error=0:second_deadlock_stack=1"
+    env["TSAN_OPTIONS"] = "exitcode=98:halt_on_error=0:second_deadlock_stack=1:report_thread_leaks=0"
     return env
 
 
